@@ -15,7 +15,9 @@ import (
 	"os"
 	"path/filepath"
 	"reflect"
+	"regexp"
 	"sort"
+	"strconv"
 	"strings"
 	"testing"
 
@@ -31,6 +33,63 @@ const prop = "C03"
 type Case struct {
 	History hist.History `json:"history"`
 	Bin     bool         `json:"bin,omitempty"`
+	// Filter: the `parser { include / exclude }` configuration the case runs under (nil = none)
+	Filter *Filter `json:"filter,omitempty"`
+}
+
+// Filter mirrors the documented meaning of parser include/exclude: patterns are
+// anchored; exclude wins; with an include list only matching paths are checked.
+type Filter struct {
+	Include []string `json:"include,omitempty"`
+	Exclude []string `json:"exclude,omitempty"`
+}
+
+func (f *Filter) allowed(path string) bool {
+	if f == nil {
+		return true
+	}
+	for _, p := range f.Exclude {
+		if regexp.MustCompile("^" + p + "$").MatchString(path) {
+			return false
+		}
+	}
+	for _, p := range f.Include {
+		if regexp.MustCompile("^" + p + "$").MatchString(path) {
+			return true
+		}
+	}
+	return len(f.Include) == 0
+}
+
+func (f *Filter) hcl() string {
+	if f == nil {
+		return ""
+	}
+	q := func(l []string) string {
+		out := make([]string, 0, len(l))
+		for _, x := range l {
+			out = append(out, strconv.Quote(x))
+		}
+		return "[" + strings.Join(out, ", ") + "]"
+	}
+	s := "parser {\n"
+	if len(f.Include) > 0 {
+		s += "  include = " + q(f.Include) + "\n"
+	}
+	if len(f.Exclude) > 0 {
+		s += "  exclude = " + q(f.Exclude) + "\n"
+	}
+	return s + "}\n"
+}
+
+// filters over the generator's path vocabulary (rules/{a,b,c,d}.yml, rules/sub/{e,f}.yml, top.yml, alerts/g.yaml)
+var filters = []Filter{
+	{Include: []string{`rules/.*`}},
+	{Include: []string{`rules/[^/]*\.yml`}},
+	{Exclude: []string{`rules/sub/.*`}},
+	{Include: []string{`rules/.*`, `alerts/.*`}, Exclude: []string{`rules/(c|d)\.yml`}},
+	{Include: []string{`.*\.yml`}},
+	{Exclude: []string{`rules/(a|b)\.yml`}},
 }
 
 // errHarness marks failures of the machinery (never reported as violations).
@@ -226,14 +285,23 @@ func checkFile(path string, head hist.File, obs []Obs, base *hist.File, basePath
 }
 
 type verdict struct {
+	outside, crossedIn, crossedBack int
+
 	nontrivial bool
 	changed    int
 	unchanged  int
 }
 
 // oracle checks a complete classification (path -> rules in file order).
-func oracle(h hist.History, observed map[string][]Obs, rx relax) (verdict, error) {
+func oracle(h hist.History, flt *Filter, observed map[string][]Obs, rx relax) (verdict, error) {
 	var v verdict
+	if flt != nil {
+		// the reference is computed on what the filter lets pint see: files outside do not exist,
+		// a rename to a path outside is a deletion, a rename from outside is a creation (CameIn)
+		v.outside = len(h.Head())
+		h = h.Project(flt.allowed)
+		v.outside -= len(h.Head())
+	}
 	fork, head := h.Fork(), h.Head()
 	renames := false
 	for _, tr := range h.Ledger() {
@@ -256,6 +324,23 @@ func oracle(h hist.History, observed map[string][]Obs, rx relax) (verdict, error
 		}
 		if tr.Renamed {
 			renames = true
+		}
+		if tr.CameIn {
+			if tr.Origins[0].Path != "" {
+				// inside -> outside -> inside again at its old path: the documentation does not say
+				// what such a file is compared with; nothing is demanded
+				v.crossedBack++
+				continue
+			}
+			// renamed into the parser filter on the branch: as far as pint is concerned the file is new,
+			// or renamed if the rename is followed - either way every rule of it is a changed rule
+			for i, r := range rules {
+				if !has([]string{"added", "modified", "renamed"}, obs[i].State) {
+					return v, fmt.Errorf("%s:%d %s: the file was renamed into the parser filter on the branch, every rule in it is a changed rule (added / renamed / modified), pint says %s", tr.Path, obs[i].Line, r.Describe(), obs[i].State)
+				}
+			}
+			v.crossedIn++
+			continue
 		}
 		var first error
 		ok := false
@@ -310,7 +395,7 @@ func oracle(h hist.History, observed map[string][]Obs, rx relax) (verdict, error
 	}
 	for p := range observed {
 		if _, ok := head.Get(p); !ok {
-			return v, fmt.Errorf("pint lists non-removed entries for %s, which does not exist at HEAD", p)
+			return v, fmt.Errorf("pint lists non-removed entries for %s, which does not exist at HEAD (or is outside the parser filter)", p)
 		}
 	}
 	v.nontrivial = v.nontrivial && (len(h.Branch) >= 2 || renames)
@@ -321,8 +406,12 @@ func oracle(h hist.History, observed map[string][]Obs, rx relax) (verdict, error
 
 var defaultChanged = []string{"alerts/comparison", "alerts/for", "alerts/template", "promql/fragile", "promql/impossible", "promql/regexp", "promql/syntax"}
 
-func observeInProcess(repo *hist.Repo, ci *hist.CIChecks) (map[string][]Obs, error) {
-	found := repo.Discover(50)
+func observeInProcess(repo *hist.Repo, ci *hist.CIChecks, flt *Filter) (map[string][]Obs, error) {
+	var inc, exc []string
+	if flt != nil {
+		inc, exc = flt.Include, flt.Exclude
+	}
+	found := repo.DiscoverFiltered(50, inc, exc)
 	if found.Panic != nil {
 		return nil, fmt.Errorf("pint's discovery panicked: %v\n%s", found.Panic, found.Stack)
 	}
@@ -375,12 +464,12 @@ var markerConfig = markerBlock("unmodified", "info") + markerBlock("added", "war
 
 var sevState = map[string]string{"Information": "unmodified", "Warning": "added", "Bug": "modified", "Fatal": "renamed"}
 
-func observeBinary(repo *hist.Repo, h hist.History) (map[string][]Obs, error) {
+func observeBinary(repo *hist.Repo, h hist.History, flt *Filter) (map[string][]Obs, error) {
 	bin := os.Getenv("VERIF_PINT_BIN")
 	if bin == "" {
 		return nil, fmt.Errorf("%w: VERIF_PINT_BIN not set", errHarness)
 	}
-	reports, exit, stderr, err := repo.RunCI(bin, markerConfig)
+	reports, exit, stderr, err := repo.RunCI(bin, flt.hcl()+markerConfig)
 	if err != nil {
 		if strings.Contains(stderr, "failed to load config file") {
 			return nil, fmt.Errorf("%w: marker configuration rejected: %s", errHarness, stderr)
@@ -421,17 +510,23 @@ func observeBinary(repo *hist.Repo, h hist.History) (map[string][]Obs, error) {
 
 // judge applies the strict reference; when it fails, it names the listed class
 // that alone explains the failure ("" = none).
-func judge(h hist.History, obs map[string][]Obs) (verdict, string, error) {
-	v, err := oracle(h, obs, relax{})
+func judge(h hist.History, flt *Filter, obs map[string][]Obs) (verdict, string, error) {
+	v, err := oracle(h, flt, obs, relax{})
 	if err == nil || errors.Is(err, errHarness) {
 		return v, "", err
 	}
+	if movedOut(h, flt) {
+		return v, classMovedOut, err
+	}
+	if fileToDir(h) {
+		return v, classFileToDir, err
+	}
 	if disableReordered(h) {
-		if _, e2 := oracle(h, obs, relax{disableOrder: true}); e2 == nil {
+		if _, e2 := oracle(h, flt, obs, relax{disableOrder: true}); e2 == nil {
 			return v, classDisableReorder, err
 		}
 	}
-	if _, e2 := oracle(h, obs, relax{nameSteal: true}); e2 == nil {
+	if _, e2 := oracle(h, flt, obs, relax{nameSteal: true}); e2 == nil {
 		return v, classNameSteal, err
 	}
 	return v, "", err
@@ -445,20 +540,26 @@ func run(c Case, ci *hist.CIChecks) (v verdict, class string, err error) {
 		return verdict{}, "", fmt.Errorf("%w: %v", errHarness, err)
 	}
 	defer repo.Close()
-	obs, err := observeInProcess(repo, ci)
+	obs, err := observeInProcess(repo, ci, c.Filter)
 	if err != nil {
 		return verdict{}, "", err
 	}
-	v, class, err = judge(c.History, obs)
+	v, class, err = judge(c.History, c.Filter, obs)
 	if err != nil {
 		return v, class, err
 	}
 	if c.Bin {
-		bobs, err := observeBinary(repo, c.History)
+		bobs, err := observeBinary(repo, c.History, c.Filter)
 		if err != nil {
+			if movedOut(c.History, c.Filter) && !errors.Is(err, errHarness) {
+				return v, classMovedOut, err
+			}
+			if fileToDir(c.History) && !errors.Is(err, errHarness) {
+				return v, classFileToDir, err
+			}
 			return v, "", err
 		}
-		if _, class, err := judge(c.History, bobs); err != nil {
+		if _, class, err := judge(c.History, c.Filter, bobs); err != nil {
 			return v, class, fmt.Errorf("real binary (`pint ci --json` with state marker blocks): %w", err)
 		}
 	}
@@ -471,6 +572,10 @@ func run(c Case, ci *hist.CIChecks) (v verdict, class string, err error) {
 const (
 	classDisableReorder = "file-disable-reorder"
 	classNameSteal      = "changed-rule-before-untouched-rule-of-same-name"
+	// a branch commit renames a file from a path the parser filter accepts to a path it rejects
+	classMovedOut = "file-renamed-out-of-parser-filter"
+	// see fileToDir
+	classFileToDir = "file-replaced-by-directory"
 )
 
 func usesOp(h hist.History, kind string) bool {
@@ -486,6 +591,43 @@ func usesOp(h hist.History, kind string) bool {
 
 // disableReordered: some HEAD file whose file/disable comments are the same set
 // as in its base version but in another order.
+// fileToDir: a path that held a rule file at the fork point or on the branch is a directory at
+// HEAD (class of finding C20-F3: git.Changes skips every log entry whose path is a directory in
+// the work tree, so the file's changes - including renames from other paths - are lost).
+func fileToDir(h hist.History) bool {
+	was := map[string]bool{}
+	for _, f := range h.Fork() {
+		was[f.Path] = true
+	}
+	for _, c := range h.Branch {
+		for _, f := range c.Tree {
+			was[f.Path] = true
+		}
+	}
+	for _, f := range h.Head() {
+		for p := range was {
+			if strings.HasPrefix(f.Path, p+"/") {
+				return true
+			}
+		}
+	}
+	return false
+}
+
+func movedOut(h hist.History, flt *Filter) bool {
+	if flt == nil {
+		return false
+	}
+	for _, c := range h.Branch {
+		for _, rn := range c.Renames {
+			if flt.allowed(rn[0]) && !flt.allowed(rn[1]) {
+				return true
+			}
+		}
+	}
+	return false
+}
+
 func disableReordered(h hist.History) bool {
 	fork := h.Fork()
 	for _, tr := range h.Ledger() {
@@ -535,7 +677,7 @@ func profile(known map[string]string) hist.Profile {
 		Weights: map[string]int{
 			"file-add": 2, "file-del": 2, "rename": 3, "rename-edit": 1,
 			"rule-add": 5, "rule-mod": 8, "rule-del": 4, "rule-dup": 2, "rule-swap": 1,
-			"cosmetic": 6, "filectl": 2, "revert": 3, "rule-trim": 4, "invalid-add": 1, "invalid-del": 1,
+			"cosmetic": 6, "filectl": 2, "revert": 3, "rule-trim": 4, "invalid-add": 1, "invalid-del": 1, "file-dir": 1,
 		},
 		ReorderDisable: !reorderListed,
 		Cosmetics:      true,
@@ -627,6 +769,9 @@ func flagsOf(c Case) []string {
 	if c.Bin {
 		fl = append(fl, "bin")
 	}
+	if c.Filter != nil {
+		fl = append(fl, "filter")
+	}
 	sort.Strings(fl)
 	return fl
 }
@@ -643,7 +788,7 @@ func classOf(c Case) string {
 	var keep []string
 	for _, f := range flagsOf(c) {
 		switch f {
-		case "renamed", "rename+edit", "newfile", "filedel", "main+", "samebytes-moved", "samebytes-touched", "samerules-newbytes", "rule-trim-last", "rule-trim-mid":
+		case "renamed", "rename+edit", "newfile", "filedel", "main+", "samebytes-moved", "samebytes-touched", "samerules-newbytes", "rule-trim-last", "rule-trim-mid", "filter":
 			keep = append(keep, f)
 		}
 	}
@@ -663,7 +808,17 @@ func TestPropHistory(t *testing.T) {
 	p := profile(known)
 	binOneIn := vstat.EnvInt("VERIF_C03_BIN_ONE_IN", 6)
 	rapid.Check(t, func(rt *rapid.T) {
-		c := Case{History: hist.Gen(rt, p)}
+		// one case in three runs under a parser include/exclude configuration
+		pp := p
+		_, pp.NoFileDir = known[classFileToDir]
+		var flt *Filter
+		if fi := rapid.IntRange(0, 3*len(filters)-1).Draw(rt, "filter"); fi < len(filters) {
+			f := filters[fi]
+			flt = &f
+			pp.Allowed = flt.allowed
+			_, pp.NoMoveOut = known[classMovedOut]
+		}
+		c := Case{History: hist.Gen(rt, pp), Filter: flt}
 		c.Bin = rapid.IntRange(0, binOneIn-1).Draw(rt, "bin") == 0 && os.Getenv("VERIF_PINT_BIN") != ""
 		v, class, err := run(c, ci)
 		if errors.Is(err, errHarness) {
@@ -679,6 +834,11 @@ func TestPropHistory(t *testing.T) {
 		}
 		for _, f := range flagsOf(c) {
 			rec.Count("histories_with:"+f, 1)
+		}
+		if c.Filter != nil {
+			rec.Count("filter:head_files_outside", int64(v.outside))
+			rec.Count("filter:head_files_that_came_into_the_filter", int64(v.crossedIn))
+			rec.Count("filter:head_files_inside_outside_inside", int64(v.crossedBack))
 		}
 		if err != nil {
 			if id, ok := known[class]; ok && class != "" {
@@ -775,6 +935,14 @@ func minimalCases() map[string]Case {
 		"name-steal": {Bin: true, History: hist.History{
 			Base:   []hist.Commit{{Msg: "base", Tree: tree(map[string]hist.File{"rules/a.yml": oneGroup(nil, old, other)})}},
 			Branch: []hist.Commit{{Msg: "add a second a:x above the first", Ops: []string{"rule-add rules/a.yml"}, Tree: tree(map[string]hist.File{"rules/a.yml": oneGroup(nil, added, old, other)})}},
+		}},
+		// a file inside the parser filter is edited, then renamed to a path outside the filter
+		"moved-out-of-filter": {Bin: true, Filter: &Filter{Include: []string{`rules/.*`}}, History: hist.History{
+			Base: []hist.Commit{{Msg: "base", Tree: tree(map[string]hist.File{"rules/a.yml": oneGroup(nil, old, other), "rules/b.yml": oneGroup(nil, other)})}},
+			Branch: []hist.Commit{
+				{Msg: "edit rules/a.yml", Ops: []string{"rule-mod rules/a.yml"}, Tree: tree(map[string]hist.File{"rules/a.yml": oneGroup(nil, added, other), "rules/b.yml": oneGroup(nil, other)})},
+				{Msg: "park the file outside rules/", Ops: []string{"rename rules/a.yml->top.yml"}, Renames: [][2]string{{"rules/a.yml", "top.yml"}}, Tree: tree(map[string]hist.File{"top.yml": oneGroup(nil, added, other), "rules/b.yml": oneGroup(nil, other)})},
+			},
 		}},
 		// two file/disable comments swap places
 		"file-disable-reorder": {Bin: true, History: hist.History{
